@@ -81,29 +81,57 @@ Fixpoint dset (k v : string) (l : list (string * string)) : list (string * strin
 Definition dmerge (l : list (string * string)) : list (string * string) :=
   fold_left (fun acc kv => dset (fst kv) (snd kv) acc) l [].
 
-Fixpoint show_val (fuel : nat) (h : list hobj) (v : val) : string :=
+(* Python equality of hashable values identifies True with 1 and False with 0 (also inside tuples and
+   frozensets): a set keeps the FIRST of two equal elements, a dict keeps the first KEY and the last
+   value.  [norm = true] renders a value up to that identification (used only as the comparison key). *)
+Definition show_const_key (c : const) : string :=
+  match c with
+  | CBool b => show_const (CInt (if b then 1%Z else 0%Z))
+  | _ => show_const c
+  end.
+
+(* keep the first element for every key *)
+Fixpoint first_by_key (seen : list string) (l : list (string * string)) : list string :=
+  match l with
+  | [] => []
+  | (k, x) :: r => if mem_str k seen then first_by_key seen r else x :: first_by_key (k :: seen) r
+  end.
+
+(* dict on (key-for-equality, rendered key, rendered value): later assignment to an equal key replaces
+   the value in place and keeps the key already there *)
+Fixpoint dset3 (kk k v : string) (l : list (string * (string * string))) : list (string * (string * string)) :=
+  match l with
+  | [] => [(kk, (k, v))]
+  | (kk', (k', v')) :: r => if String.eqb kk kk' then (kk', (k', v)) :: r else (kk', (k', v')) :: dset3 kk k v r
+  end.
+Definition dmerge3 (l : list (string * (string * string))) : list (string * string) :=
+  map snd (fold_left (fun acc x => dset3 (fst x) (fst (snd x)) (snd (snd x)) acc) l []).
+
+Fixpoint show_val_gen (norm : bool) (fuel : nat) (h : list hobj) (v : val) : string :=
   match fuel with
   | O => "(deep)"
   | S n =>
-      let go := show_val n h in
+      let go := show_val_gen norm n h in
+      let key := show_val_gen true n h in
       match v with
-      | VConst c => show_const c
+      | VConst c => if norm then show_const_key c else show_const c
       | VGlobal m nm => par ["global"; wire_of_string (if is_builtins m then "builtins" else m);
                              wire_of_string nm]
       | VTuple l => par ("tuple" :: map go l)
       | VRef i =>
           match nth_error h i with
           | Some (HList l) => par ("list" :: map go l)
-          | Some (HSet l) => par ("set" :: ssort (map go l))
+          | Some (HSet l) => par ("set" :: ssort (first_by_key [] (map (fun x => (key x, go x)) l)))
           | Some (HDict kvs) =>
               par ("dict" :: map (fun kv => par [fst kv; snd kv])
-                                 (dmerge (map (fun kv => (go (fst kv), go (snd kv))) kvs)))
+                                 (dmerge3 (map (fun kv => (key (fst kv), (go (fst kv), go (snd kv)))) kvs)))
           | None => "(badref)"
           end
-      | VFrozen l => par ("frozenset" :: ssort (map go l))
+      | VFrozen l => par ("frozenset" :: ssort (first_by_key [] (map (fun x => (key x, go x)) l)))
       | VObj k => par ["obj"; nat_to_string k]
       end
   end.
+Definition show_val := show_val_gen false.
 
 Definition show_event (h : list hobj) (e : event) : string :=
   let go := show_val DEPTH h in
